@@ -77,6 +77,12 @@ CHECKS["C03"] = ("exploration",
     "Conventions (this/next weekday, EOM/EOY) as the property fixes them; vocabulary limited to notations the patterns define.",
     "DESIGN.md 4 (C03)")
 
+CHECKS["C04"] = ("exploration",
+    "Enumeration of weekday / day-of-month / day+month / part-of-day surface forms x reference-date sweep (thorough: complete 28-year cycle for weekdays and days of month, complete leap cycle x all 366 pairs) against a date.toordinal reference model; Hypothesis sampling in the quick tier",
+    "Reference-model oracle for 'first matching date' (months/years lacking the day skipped, 29 Feb waits for a leap year) plus the preserved-written-fields clause; finite sub-domains enumerated completely in the thorough tier, sampled with edge-date bias in the quick tier.",
+    "Part-of-day start hours come from the library's own table; spelling -> part of day mapping frozen in the grammar; ambiguous spellings ('so früh', '5ten') documented as not asserted.",
+    "DESIGN.md 4 (C04)")
+
 NOT_YET = "check not built yet in this round (see DESIGN.md section 4 for the planned generated-input check)"
 
 
